@@ -153,7 +153,15 @@ func (r *Run) RunChild(mode string, args any, timeout time.Duration, extraEnv ..
 	base := filepath.Join(r.Scratch, fmt.Sprintf("child-%s-%d", mode, n))
 	res := ChildResult{OutFile: base + ".out", ErrFile: base + ".err"}
 	ab, _ := json.Marshal(args)
-	cmd := exec.Command(os.Args[0])
+	bin := os.Args[0]
+	for _, e := range extraEnv {
+		// "VERIF_CHILD_BIN=<path>" runs the child from another binary of the same command
+		// (the light vsync variant built by ./check for instrumented checks)
+		if strings.HasPrefix(e, "VERIF_CHILD_BIN=") && len(e) > len("VERIF_CHILD_BIN=") {
+			bin = e[len("VERIF_CHILD_BIN="):]
+		}
+	}
+	cmd := exec.Command(bin)
 	cmd.Env = append(os.Environ(), "VERIF_CHILD="+mode, "VERIF_CHILD_ARGS="+string(ab), "VERIF_CHILD_OUT="+res.OutFile, "VERIF_RACE_CHILD=1",
 		"VERIF_CHILD_DIR="+base+".d")
 	racePrefix := base + ".race"
